@@ -5,6 +5,7 @@ import (
 	"reflect"
 	"strconv"
 
+	ucfg "github.com/elastic/go-ucfg"
 	"pgregory.net/rapid"
 
 	"verif/harness/internal/gen"
@@ -221,7 +222,8 @@ func (b *builder) primValue(t *gen.Tree, r int, group []*gen.Tree) interface{} {
 // nilValue spells a nil node: r%4 = 0 untyped nil, 1 a nil pointer
 // ((r/4)%4: *int, *interface{}, **int, a non-nil **int to a nil *int), 2 / 3
 // (only if nilConts, as they are empty containers rather than nil values) a nil
-// map / slice, or a nil pointer to one.
+// map / slice, a nil pointer to a map, struct, Config, slice or array, or a nil
+// slice of a named type.
 func (b *builder) nilValue(r int) interface{} {
 	sub := (r / 4) % 4
 	switch r % 4 {
@@ -242,18 +244,32 @@ func (b *builder) nilValue(r int) interface{} {
 		return (*int)(nil)
 	case 2:
 		if b.nilConts {
-			if sub == 1 {
+			switch sub {
+			case 1:
 				b.use("nil: nil *map")
 				return (*map[string]interface{})(nil)
+			case 2:
+				b.use("nil: nil *struct")
+				return (*struct{ A int })(nil)
+			case 3:
+				b.use("nil: nil *Config")
+				return (*ucfg.Config)(nil)
 			}
 			b.use("nil map")
 			return map[string]interface{}(nil)
 		}
 	case 3:
 		if b.nilConts {
-			if sub == 1 {
+			switch sub {
+			case 1:
 				b.use("nil: nil *[]interface{}")
 				return (*[]interface{})(nil)
+			case 2:
+				b.use("nil: nil *[2]int")
+				return (*[2]int)(nil)
+			case 3:
+				b.use("nil: nil named slice")
+				return nSlice(nil)
 			}
 			b.use("nil slice")
 			return []interface{}(nil)
